@@ -217,8 +217,9 @@ def flo_programs(tier):
     #     then evaluates `go d` (a frame below the suspension point).  Whatever the transition machinery does
     #     with that, every frame M entered must have been exited when the run is over, however it ends
     for hold_at, go_at in (((1, 2), (1, 3)) if tier != "thorough" else ((1, 2), (1, 3), (2, 3), (0, 1))):
+      for first in ("c", "d"):            # d is the non-primary (second declared) under of b
         for k_first in (True, False):
-            M = ["framer M be active first c",
+            M = ["framer M be active first %s" % first,
                  "   frame a"] + rec3("a", 6) + ["      go d if flag.go == 1",
                  "      frame b in a"] + rec3("b", 9) + ["         aux H if flag.hold == 1",
                  "         frame c in b"] + rec3("c", 12) + [
@@ -228,8 +229,8 @@ def flo_programs(tier):
                                                          {hold_at: ["put 1 into flag.hold"], go_at: ["put 1 into flag.go"],
                                                           go_at + 2: ["put 0 into flag.go"]})
             inits = ["init flag.hold with 0", "init flag.go with 0"]
-            progs.append(("R7 a>b>(c|d), aux H if flag.hold on b from tick %d, go d from a at tick %d, K %s"
-                          % (hold_at, go_at, "first" if k_first else "last"), [inits, K, M, H] if k_first else [inits, M, H, K]))
+            progs.append(("R7 a>b>(c|d) started in %s, aux H if flag.hold on b from tick %d, go d from a at tick %d, K %s"
+                          % (first, hold_at, go_at, "first" if k_first else "last"), [inits, K, M, H] if k_first else [inits, M, H, K]))
     out = []
     for item in progs:
         title, blocks = item[:2]
@@ -554,6 +555,11 @@ def judge(p, prog, res, order, framers, fault, interrupt_at, label):
                     st.reverse()
                     st.remove(frame)        # the most recent entry of that frame
                     st.reverse()
+                else:
+                    p.violation("frames|exit-action-of-frame-not-entered", example,
+                                "%s %s ran the exit actions of frame %s of %s, which was not entered (entered: %r)"
+                                % (e["name"], e["control"], frame, fr, st), replay)
+                    return
     judged = set()
     for n in queued:
         if n not in framers:
